@@ -6,7 +6,6 @@ use crate::error::ErrorKind;
 use crate::eval::eval;
 use crate::eval::eval_and_then;
 use crate::eval::eval_check_null;
-use crate::eval::DummyEval;
 use crate::eval::Eval;
 use crate::lists;
 use crate::value::DefunParams;
@@ -523,11 +522,7 @@ pub(crate) fn add(ctx: &mut TulispContext) {
     ) -> Result<TulispObject, Error> {
         let name = eval(ctx, &name)?;
         let name = eval(ctx, &name)?;
-        if matches!(&*name.inner_ref(), TulispValue::Lambda { .. }) {
-            crate::eval::funcall::<Eval>(ctx, &name, &rest)
-        } else {
-            crate::eval::funcall::<DummyEval>(ctx, &name, &rest)
-        }
+        crate::eval::funcall::<Eval>(ctx, &name, &rest)
     }
 
     #[crate_fn(add_func = "ctx", name = "macroexpand")]
